@@ -80,7 +80,13 @@ P.update({
             "Floats restricted to the exactly round-tripping domain; the fake service is the harness' own.", "4 C20"),
 })
 
-CLAIMED = ["C01", "C02", "C03", "C04", "C05", "C06", "C07", "C10", "C11", "C12", "C13", "C14", "C15", "C17", "C19", "C20"]
+P.update({
+    "C16": ("exploration", "differential runtime monitor: the same request sequences through 7 ways of reaching one service (child processes under watchdog + gdb), activation self-report cross-check, environment-matrix observation, address-string rejection",
+            "40/400 request sequences of the C01 alphabet are sent through the in-memory reference, unix path, unix path;mode=, abstract unix, TCP, Connection::with_activate(cmd) and Connection::with_bridge(cmd); every transport must give the reference's canonical frames. The activated service reports descriptor 3 (SO_ACCEPTCONN), LISTEN_FDS/FDNAMES/PID, VARLINK_ADDRESS, which are checked against the contract from parents whose descriptor 3 is free and occupied. A server is started under a LISTEN_FDS x LISTEN_PID x LISTEN_FDNAMES matrix with three inherited listening sockets and the socket that answers shows whether activation was honoured. Thousands of address strings with unsupported schemes must be rejected with InvalidAddress by varlink_connect, Connection::with_address and Listener::new.",
+            "Each constructor runs in a child process; a hang (30 s+) is reported with gdb backtraces. Windows code paths are out of reach.", "4 C16"),
+})
+
+CLAIMED = ["C01", "C02", "C03", "C04", "C05", "C06", "C07", "C10", "C11", "C12", "C13", "C14", "C15", "C16", "C17", "C19", "C20"]
 
 ALL = ["C%02d" % i for i in range(1, 21)]
 
